@@ -159,6 +159,20 @@ func lossyPicture(rng *rand.Rand, w, h int, content string) *image.NRGBA {
 			}
 		}
 		return p
+	case "edge-ramp":
+		p := image.NewNRGBA(image.Rect(0, 0, w, h))
+		edge, flat := 2+rng.Intn(12), uint8(rng.Intn(256))
+		for y := 0; y < h; y++ {
+			for x := 0; x < w; x++ {
+				v := uint8((x*2 + y) % 256)
+				if x > y+edge {
+					v = flat
+				}
+				i := p.PixOffset(x, y)
+				p.Pix[i], p.Pix[i+1], p.Pix[i+2], p.Pix[i+3] = v, v, v, 255
+			}
+		}
+		return p
 	case "flat":
 		p := image.NewNRGBA(image.Rect(0, 0, w, h))
 		for i := 0; i < len(p.Pix); i += 4 {
@@ -202,8 +216,9 @@ func checkC06(args []string) {
 	info := map[string]string{}
 	n := run.Pick(420, 5000)
 	nLarge := run.Pick(8, 60)
+	nEdge := run.Pick(16, 120)
 	nTLA := 0
-	for i := 0; i < n+nLarge; i++ {
+	for i := 0; i < n+nLarge+nEdge; i++ {
 		var w, h int
 		switch rng.Intn(5) {
 		case 0:
@@ -217,7 +232,18 @@ func checkC06(args []string) {
 		}
 		content := []string{"noise", "graded", "smooth", "flat"}[rng.Intn(4)]
 		o := randomLossyOptions(rng)
-		if i >= n {
+		if i >= n+nLarge {
+			// directed family (after the random cases, so their seeded stream is unchanged): a grey ramp cut by a diagonal
+			// edge into a flat area, small, at low quality with the slower methods. Macroblocks on the edge become intra-4x4
+			// without residuals (skipped) between intra-16x16 neighbours with a coded DC block, and the frame has so few
+			// tokens that the final probability optimisation changes nothing, i.e. the tokens of the main pass are emitted
+			w = []int{48, 64, 80, 96}[rng.Intn(4)]
+			h = w
+			content = "edge-ramp"
+			o = *webp.DefaultOptions()
+			o.Quality, o.Method = float32([]int{5, 15, 30}[rng.Intn(3)]), 3+rng.Intn(4)
+			o.FilterStrength = []int{0, 60}[rng.Intn(2)]
+		} else if i >= n {
 			// large pictures (more than 510 macroblocks) whose segment map is almost entirely one segment
 			w, h = []int{512, 640, 528}[rng.Intn(3)], []int{512, 480, 400}[rng.Intn(3)]
 			content = "rare-segment"
@@ -231,7 +257,7 @@ func checkC06(args []string) {
 		sig := fmt.Sprintf("m%d|seg%d|part%d|target=%v|sharp=%v|preset%d|pass%d", o.Method, o.Segments, o.Partitions, o.TargetSize > 0 || o.TargetPSNR > 0, o.UseSharpYUV, o.Preset, o.Pass)
 		// every second case: the intra-mode decisions are overridden through the Score hook (about one evaluated mode
 		// in `period` wins whatever its cost), so that all prediction modes occur at all positions on any content
-		if i%2 == 1 {
+		if i%2 == 1 && i < n+nLarge { // the directed edge-ramp family runs with the encoder's own decisions
 			period := uint64([]int{2, 4, 8}[(i/2)%3])
 			verifhook.ForceModes(uint64(run.Seed)*100003+uint64(i)+1, period)
 			name += fmt.Sprintf(" forced-modes/%d", period)
